@@ -12,5 +12,5 @@ TRUST = ["pyvc engine (AST interpreter of the real sources, VC generation); z3/c
 
 
 def run(ses):
-    records.check_unit(ses, "leader", ["table"])
+    records.check_unit(ses, "leader", ["table", "frame"])
     ses.trust(*TRUST)
